@@ -48,7 +48,8 @@ Init ==
   /\ T = NewTerminal(c.cols, c.rows, c.r0, 0)
   /\ bad = ""
   /\ (run.kind = "clean" /\ c.r0 = 0) =>
-        PrintT(<<"PROG", ToJson([c |-> c, prog |-> Prog(c)])>>)
+        PrintT(<<"PROG", ToJson([c |-> c, prog |-> Prog(c), nbody |-> Len(Body(c)),
+                                 cleanups |-> [k \in 1..Len(Body(c)) |-> Cleanup(c, FirstWrittenAfter(c, k))]])>>)
 
 Consume ==
   /\ l < N
